@@ -15,12 +15,12 @@ _holder = Holder()
 PID = 'C17'
 TIMEOUT = 20.0
 RULE = ('all pairs of 1-feature arrays with 1..R rows over a 5-value alphabet and all pairs of 2-feature arrays with '
-        '1..3 rows over {0,1}^2, each x 5 K values x 3 bounds (15 calls per case), the 1-feature family again on a 0.1-grid with bound 1.0 / 0.1 and on a 1.7e9 offset, plus 72 larger permuted instances; '
+        '1..3 rows over {0,1}^2, each x 5 K values x 4 bounds incl. the bound 0 (20 calls per case), the 1-feature family again on a 0.1-grid with bound 1.0 / 0.1 and on a 1.7e9 offset, plus 72 larger permuted instances; '
         'non-trivial = at least one pair matched and at least one x row left unmatched in some call')
 ASSUMPTIONS = ['distances recomputed with numpy; 1e-12 slack on K-NN membership and bound comparisons']
 
 KS = (1, 2, 3, 4, 15)
-BOUNDS = (np.inf, 1.5, 0.5)
+BOUNDS = (np.inf, 1.5, 0.5, 0.0)     # 0.0: a legal bound (nothing is strictly closer than 0 - every row is omitted)
 LEVELS = [(0, 1, 2, 3, 4), (0.5, 1.5, 2.5, 3.5, 4.5), (-2, -1, 0, 1, 2)]
 
 
@@ -123,7 +123,7 @@ def check_case(case):
     d = describe(case, x, y)
     ks = KS if case[0] != 'big' else (1, 2, 5, 15)
     for K in ks:
-        for bound in ((1.0, 0.1) if case[0] == '1d-grid' else BOUNDS) if case[0] != 'big' else (np.inf, 0.3, 0.02):
+        for bound in ((1.0, 0.1, 0) if case[0] == '1d-grid' else BOUNDS) if case[0] != 'big' else (np.inf, 0.3, 0.02):
             try:
                 # (two consecutive calls on one object with different contents: once per case is enough)
                 x_in = _refill.primed(x, 'x', lambda b_: kdt_match(b_, y.copy(), K=K, distance_upper_bound=bound)) if trans == 0 else _refill(x, 'x')
